@@ -1,5 +1,6 @@
 import MongoModel.Wire
 import MongoModel.Ops
+import MongoModel.FindModify
 open MongoModel MongoModel.Wire
 
 namespace Driver
@@ -15,10 +16,10 @@ def showOut : Out → List String
 def runQ (cfg : Cfg) : St → List Val → List (Out × Option Val)
   | _, [] => []
   | s, .arr [.str "noobs", op] :: rest =>
-    let (s1, out) := step cfg s op
+    let (s1, out) := stepXS cfg s op
     (out, none) :: runQ cfg s1 rest
   | s, op :: rest =>
-    let (s1, out) := step cfg s op
+    let (s1, out) := stepXS cfg s op
     let (s2, obs) := observe s1
     (out, some obs) :: runQ cfg s2 rest
 
